@@ -161,6 +161,93 @@ def run(facts, tr, rep):
                     rep.ob("C20.READY-FIELD", site_key(b, "replace#%d" % _ordinal(g, cs)), key[2] == ff or not _is_service_field(facts, b, key[2]),
                            cs.where(), "mem::replace takes self.%s; poll_ready forwards to self.%s" % (key[2], ff))
 
+    # ---------------------------------------------------------------- RESP: the inner outcome reaches the caller, wrapped only by the pass-through constructor
+    from ..flow import Flow
+    from ..util import descendants, ret_assigns
+    FL = Flow(facts, tr)
+    nresp = 0
+    for (c, im, adt, pf) in impls:
+        items = {it["name"]: it["def"] for it in im["items"]}
+        cb = facts.bodies.get(items.get("call"))
+        pr = facts.bodies.get(items.get("poll_ready"))
+        if cb is None or pr is None:
+            continue
+        # pass-through constructor = the function handed to map_err in poll_ready (None: errors pass unchanged)
+        P = None
+        for cs in graph(pr).calls():
+            if cs.name == "map_err" and len(cs.args) > 1:
+                a = peel(tr.operand(pr, cs.args[1], cs.loc))
+                if a[0] == "fnconst":
+                    P = a[1]
+        # sources: the polled future of the wrapped call, wherever it is awaited / polled
+        bodies = descendants(facts, cb)
+        seen_defs = {b.def_ for b in bodies}
+        work = list(bodies)
+        while work:            # helper async fns reached from the call future (hedge)
+            b0 = work.pop()
+            for cs in graph(b0).calls():
+                for d in cs.targets_def():
+                    b2 = facts.bodies.get(d)
+                    if b2 is not None and b2.crate is c and b2.def_ not in seen_defs and b2.j.get("is_async"):
+                        for dd in descendants(facts, b2):
+                            if dd.def_ not in seen_defs:
+                                seen_defs.add(dd.def_)
+                                bodies.append(dd)
+                                work.append(dd)
+        # futures returned by `call` that are hand-written: their poll impls
+        rt = cb.local_ty(0)
+        for im2 in c.impls:
+            if im2.get("trait") == "core::future::future::Future" and c.types[im2["self_ty"]].get("def") == rt.get("def"):
+                for it in im2["items"]:
+                    b2 = facts.bodies.get(it["def"])
+                    if b2 is not None and b2.def_ not in seen_defs:
+                        seen_defs.add(b2.def_)
+                        bodies.append(b2)
+        sources = set()
+        for b0 in bodies:
+            g0 = graph(b0)
+            for a in g0.awaits():
+                if a.poll_bb is None:
+                    continue
+                src = peel(tr.expand(tr.operand(b0, a.awaitee, (a.into_bb, len(g0.stmts(a.into_bb)))), upvars=True, params=False))
+                if _is_inner_future(tr, src):
+                    sources.add(("call", b0.crate.name, b0.def_, a.poll_bb))
+            for cs in g0.calls():
+                if cs.def_ == "core::future::future::Future::poll" and cs.exp != "desugar:Await" and cs.self_kind in ("alias", "param"):
+                    st = cs.self_ty()
+                    if st and st.get("def", "").endswith("Service::Future"):
+                        sources.add(("call", b0.crate.name, b0.def_, cs.bb))
+        k = "%s|%s" % (c.name, adt["def"])
+        if not sources:
+            rep.ob("C20.RESP", k, False, "%s:%d" % (cb.span["file"], cb.span["line"]), "the future of the wrapped call is never awaited/polled by the layer")
+            continue
+        nresp += 1
+        ok_found, ctors_all = False, set()
+        examined = 0
+        for b0 in bodies:
+            if b0.kind not in ("coroutine", "fn"):
+                continue
+            if b0.kind == "fn" and b0 is cb:
+                continue
+            for (i, j, node) in ret_assigns(tr, b0):
+                examined += 1
+                o, cts = FL.passes(tr.expand(node, upvars=True), sources)
+                if o:
+                    ok_found = True
+                    ctors_all |= cts
+        want = {P} if P else set()
+        extra = {x for x in ctors_all if x not in want and x != "<closure>"}
+        # layers may add their own terminal error variants on triggered paths; on the pass-through path only P is allowed.
+        # variants that wrap the inner error on *triggered* paths (e.g. reconnect's MaxAttemptsExceeded) are listed, not failed
+        rep.saw(cb)
+        ok = ok_found and (not want or want <= ctors_all)
+        rep.ob("C20.RESP", k, ok, "%s:%d" % (cb.span["file"], cb.span["line"]),
+               "the wrapped call's outcome is what the layer's future returns (%d return sites examined); error constructors on the way: %s"
+               % (examined, sorted(x.split("::")[-1] for x in ctors_all) or ["none"]) if ok else
+               ("no returned value of the layer's future carries the wrapped call's outcome" if not ok_found else
+                "the inner error is not wrapped by the pass-through constructor %s used in poll_ready (seen: %s)" % (P, sorted(ctors_all))))
+        rep.note("RESP %s: pass-through=%s, constructors on outcome paths=%s" % (adt["def"].split("::")[-1], P, sorted(ctors_all)))
+    rep.floor("C20.resp-services", nresp, 14)
     # ---------------------------------------------------------------- the umbrella crate holds no logic
     um = facts.crates.get("tower_resilience")
     if um is None:
@@ -235,6 +322,32 @@ def run(facts, tr, rep):
             if "EventListener" in fty:
                 rep.ob("C20.LISTEN-PRIVATE", "tower_resilience_core|EventListeners." + f["name"], f["vis"] != "pub", "-",
                        "field %s: %s has visibility %s" % (f["name"], fty, f["vis"]))
+
+
+def _is_inner_future(tr, node, depth=0, seen=None):
+    """node is (derived from) the result of `<S as Service>::call` on a type parameter"""
+    if seen is None:
+        seen = set()
+    node = peel(node)
+    if depth > 8 or node in seen:
+        return False
+    seen.add(node)
+    if node[0] == "phi":
+        return any(_is_inner_future(tr, x, depth + 1, seen) for x in node[1])
+    if node[0] == "call":
+        c = tr.call_of(node)
+        if c.def_ == "tower_service::Service::call" and c.self_kind in ("param", "ref_param"):
+            return True
+        if c.name in ("pin", "new", "into_future", "new_unchecked", "as_mut", "timeout") and c.args:
+            return any(_is_inner_future(tr, tr.expand(tr.operand(c.g.b, a, c.loc), upvars=True, params=False), depth + 1, seen) for a in c.args)
+    if node[0] == "field" and node[3] and "Future" in str(node[3]):
+        from ..util import agg_sites
+        for (ab, i, j, rv) in agg_sites(tr.facts, node[3]):
+            if node[2] in rv["fields"]:
+                v = tr.expand(tr.operand(ab, rv["ops"][rv["fields"].index(node[2])], (i, j)), upvars=True, params=False)
+                if _is_inner_future(tr, v, depth + 1, seen):
+                    return True
+    return False
 
 
 def _is_service_field(facts, b, fname):
